@@ -555,11 +555,33 @@ def refRunSchedG (srcOf : RuleInfo → Nat) (s : RSt) (t : Nat) (ths : List Thre
   | [] => (s, t, ths)
   | i :: r => let x := refStepThreadG srcOf s t ths i; refRunSchedG srcOf x.1 x.2.1 x.2.2 r
 
-/-! ### whole op histories: what the driver executes for `clock` / `load` / `entry` -/
+/-! ### `flow.LoadRulesOfResource(res, rules)` -/
+
+/-- `buildResourceTrafficShapingController(res, …)` ignores rules of another resource (and `IsValidRule` drops the
+    invalid ones): keep the positions (ids), void the rules that do not count -/
+def forRes (res : Nat) (rules : List Rule) : List Rule :=
+  rules.map fun r => if r.res = res then r else { r with thr := .invalid }
+
+/-- an empty list clears the resource's controllers; otherwise the resource's controllers are rebuilt from its old
+    ones (same reuse order as `reloadG`), the other resources are untouched -/
+def loadresG (s : St) (res : Nat) (rules : List Rule) (now base : Nat) : St :=
+  let others := s.ctrls.filter fun c => c.rule.res ≠ res
+  if rules.isEmpty then { s with ctrls := others }
+  else
+    let x := reloadFrom (s.ctrls.filter fun c => c.rule.res = res) { nodes := s.nodes, ctrls := [] } now base (forRes res rules)
+    { nodes := x.nodes, ctrls := others ++ x.ctrls }
+
+def refLoadresG (s : RSt) (res : Nat) (rules : List Rule) (base : Nat) : RSt :=
+  let others := s.ctrls.filter fun c => c.info.rule.res ≠ res
+  if rules.isEmpty then { s with ctrls := others }
+  else { s with ctrls := others ++ refReloadFrom (s.ctrls.filter fun c => c.info.rule.res = res) [] s.H.length base (forRes res rules) }
+
+/-! ### whole op histories: what the driver executes for `clock` / `load` / `loadres` / `entry` -/
 
 inductive Op where
   | clock (ms : Nat)
   | load (rules : List Rule)
+  | loadres (res : Nat) (rules : List Rule)
   | entry (res b : Nat)
 deriving Repr
 
@@ -581,6 +603,9 @@ def stepOp (m : MSt) : Op → MSt × Out
   | .load rules =>
     let s := reloadG m.s rules (m.t / nsPerMs) m.nrules
     ({ m with s := s, nrules := m.nrules + rules.length }, .loaded s.ctrls.length)
+  | .loadres res rules =>
+    let s := loadresG m.s res rules (m.t / nsPerMs) m.nrules
+    ({ m with s := s, nrules := m.nrules + rules.length }, .loaded s.ctrls.length)
   | .entry res b =>
     let x := entryG m.s res m.t b
     ({ m with s := x.1, t := x.2.1 }, .dec x.2.2 (x.2.1 - m.t))
@@ -599,6 +624,9 @@ def refStepOp (srcOf : RuleInfo → Nat) (m : RMSt) : Op → RMSt × Out
   | .clock ms => ({ m with t := max m.t (ms * nsPerMs) }, .silent)
   | .load rules =>
     let r := refReloadG m.r rules m.nrules
+    ({ m with r := r, nrules := m.nrules + rules.length }, .loaded r.ctrls.length)
+  | .loadres res rules =>
+    let r := refLoadresG m.r res rules m.nrules
     ({ m with r := r, nrules := m.nrules + rules.length }, .loaded r.ctrls.length)
   | .entry res b =>
     let x := refEntryG srcOf m.r res m.t b
